@@ -14,7 +14,15 @@ from attrs import resolve_types
 from msgspec import Struct, convert, to_builtins
 from msgspec.json import Encoder, decode
 
-from .._compat import fields, get_args, get_origin, is_bare, is_mapping, is_sequence
+from .._compat import (
+    adapted_fields,
+    fields,
+    get_args,
+    get_origin,
+    is_bare,
+    is_mapping,
+    is_sequence,
+)
 from ..cols import is_namedtuple
 from ..converters import BaseConverter, Converter
 from ..dispatch import UnstructureHook
@@ -169,9 +177,12 @@ def msgspec_attrs_unstructure_factory(
     if attrs_has(type) and any(isinstance(a.type, str) for a in attribs):
         resolve_types(type)
         attribs = fields(origin or type)
+    elif any(isinstance(a.type, str) for a in attribs):
+        # A dataclass with stringified annotations.
+        attribs = adapted_fields(origin or type)
 
-    if msgspec_skips_private and any(
-        attr.name.startswith("_")
+    if any(
+        (msgspec_skips_private and attr.name.startswith("_"))
         or (
             converter.get_unstructure_hook(attr.type, cache_result=False)
             not in (identity, to_builtins)
